@@ -150,6 +150,23 @@ class SwitchCodeGenerator:
 
         return case_context
 
+    def generate_unmatched_guard(self, start):
+        # No case handles the field value (there is no default case): case data must not be set.
+        if not start:
+            self._data.serialize.begin_control_flow('else')
+        self._data.serialize.begin_control_flow(
+            f"if data._{self._case_data_field_name} is not None"
+        )
+        self._data.serialize.add_line(
+            'raise SerializationError('
+            + f'"Expected {self._case_data_field_name} to be None for {self._field_name} "'
+            + f' + str(data._{self._field_name}) + ".")'
+        )
+        self._data.serialize.unindent()
+        if not start:
+            self._data.serialize.unindent()
+        self._data.serialize.add_import("SerializationError", "eolib.protocol.serialization_error")
+
     def generate_case_data_type(self, protocol_case, case_data_type_name, case_context):
         from protocol_code_generator.generate.object_code_generator import ObjectCodeGenerator
 
